@@ -18,6 +18,33 @@ CLAIMS = {
         ref="DESIGN.md §4 C11"),
 }
 
+CLAIMS.update({
+    "C12": dict(
+        text="Solver verdicts over the real code for every sequence type: k-mers (20 instantiations, all values: positional law, involution, min_rc/min_rc_flip/is_palindrome, odd K never palindromic), all 256 extension sets (rc/complement/reverse, coherence with k-mer rc for 8 k-mer types), Lmer<[u64;1..3]> (thorough ..6) for every length 0..=max_len, DnaString::rc at lengths 0,1,2,31,32,33 (thorough 63,64,65), DnaStringSlice::rc from every slice state, and commutation of rc with k-mer extraction on slices.",
+        note="Bounds: strings <= 96 bases; DnaString::rc only at the listed concrete lengths (symbolic content); slice commutation for Kmer4/Kmer32 in quick, all 19 K in thorough. Trusted: Kani/CBMC/CaDiCaL, string oracles, INV_S/INV_L representation invariants (proved inductive under C14/C17).",
+        ref="DESIGN.md §4 C12"),
+    "C13": dict(
+        text="For every container the k-mer read at position i is proved (solver, all contents) to equal bases i..i+K: DnaString (1-3 blocks, every alignment of every K across 32-base block boundaries), DnaStringSlice forward and reverse-complemented at every offset, Lmer<[u64;1..3]>, first/last/term accessors; INV of the result.",
+        note="Quick tier: 4 k-mer types on DnaString, 2 on slices, 8 on Lmer; thorough: all 19. Strings <= 96 bases. Trusted: Kani/CBMC/CaDiCaL, string oracle.",
+        ref="DESIGN.md §4 C13"),
+    "C14": dict(
+        text="Induction over operation histories with the representation invariant INV_S (storage.len()==ceil(len/32), padding bits zero): every constructor establishes it with the right contents; push/set_mut/clear/extend/push_bytes each preserve it from an ARBITRARY INV_S state and change exactly the specified bases; observers (len,get,iter,to_bytes,to_ascii_vec,reverse,rc,ndiffs) and ==/cmp/hash on two arbitrary INV_S states equal those of the plain base vector; PackedDnaStringSet::add/get/slice.",
+        note="Bounds: pre-states <= 96 bases (block count concrete 0..3, contents and in-block length symbolic); extend: pre-lengths {0,1,30,31,32,33,63,64,65} x {0,1,3} items; push_bytes: 2 bytes; renderings: lengths <= 5; from_dna_string: <= 1 char (UTF-8 decoding of symbolic text explodes); Display not covered here. The step 'one-step lemmas => all histories' is the usual induction. Stub S1 on renderings.",
+        ref="DESIGN.md §4 C14"),
+    "C15": dict(
+        text="From an arbitrary (string, slice-record) state: get/len/iter, prefix/suffix/slice constructors, slice-of-slice and rc (closed under both, hence any nesting/interleaving by induction), ==, get_kmer, bytes/ascii/to_dna_string/to_owned, Display and Debug into a fixed sink, and hamming_dist (short lengths: fully symbolic pairs at every offset/orientation; 31..65: whole-string pairs; >=1023: sparse symbolic differences) all equal the reference view of the plain base vector.",
+        note="Bounds: strings <= 96 bases (33/65 blocks for the long distance queries); rendering lengths <= 3 (5 thorough); Debug with concrete start; long distances only with <= 2 differing positions and whole-string forward slices. Stubs S1, S4. Two genuine defects were found by these checks and fixed in /repo (see known_findings.txt).",
+        ref="DESIGN.md §4 C15"),
+    "C17": dict(
+        text="For Lmer<[u64;N]>, N=1..3 (thorough ..6), from every raw state satisfying INV_L (every length 0..=max_len, all contents): new/len, get after set_mut with frame, set_slice_mut for all pos/n<=32/value including runs crossing a word boundary and runs touching the length-byte word, rc, from_slice, get_kmer for every K that fits, ==/hash agree with (length, bases); INV_L is preserved by every operation.",
+        note="No bound beyond N. Trusted: Kani/CBMC/CaDiCaL, string oracle, raw-state hook verif_from_raw (add-only).",
+        ref="DESIGN.md §4 C17"),
+    "C18": dict(
+        text="Two-node graphs built through the public API over the boomphf model (all bases symbolic, both nodes iterated): every sequence of three calls, each next() or nth(n) with n in 0..=7, yields exactly the reference cursor's k-mer or None once the cursor passes the end, never panics, and reports the exact count up front; graph iteration visits each node once in order.",
+        note="Bounds: K in {3,4,5}, node 0 has 4 or 7 k-mers, node 1 has 1; 3 operations. boomphf replaced by model M1 (key-verified lookup; the builder is not executed). The defect in nth(n>4) was found by this check and fixed in /repo. size_hint after consumption is not constrained (the property only speaks of the count 'up front').",
+        ref="DESIGN.md §4 C18"),
+})
+
 NOT_APPLICABLE = {
     "C01": "statement is about the result of the growth loops over BitSet/Vec/VecDeque/PackedDnaStringSet; build_node on a 2-row table exceeded 12 GB and compress_kmers on 2 rows 31 GB in CBMC — no heap-light unit carries the partition/payload claim (the join decision itself is claimed under C02)",
     "C04": "whole-pipeline equivalence (msp -> per-shard filter -> compress -> combine -> finish -> recompress, twice); every stage but the first is individually beyond the solver's reach (measured, DESIGN §8); its local ingredients are decided under C08/C05/C02/C09",
